@@ -24,6 +24,9 @@ ASSUMPTIONS = [
 ]
 
 
+VIEW_KINDS = ("none", "ellipsis", "single", "tuple", "short", "mixed", "fancy", "bool")
+
+
 def same(a, b):
     a, b = np.asarray(a), np.asarray(b)
     if a.shape != b.shape:
@@ -173,6 +176,78 @@ def fn_scalar_views(spec, rec):
     rec.nt(True)
 
 
+# --------------------------------------------------------------------------- SliceSubsetState x view, exhaustive in 1-d
+
+def slice_blocks(tier):
+    Lmax = 6 if tier == "thorough" else 5
+    for L in range(1, Lmax + 1):
+        vals = [None] + list(range(-L - 1, L + 2))
+        for a in vals:
+            for b in vals:
+                for c in (None, 1, 2, 3):
+                    yield {"k": "block", "L": L, "slice": [a, b, c]}
+
+
+def fn_slice_enum(spec, rec):
+    from glue.core import Data
+    from glue.core.subset import SliceSubsetState
+    L = spec["L"]
+    d = Data(x=np.arange(L, dtype=float))
+    st_ = SliceSubsetState(d, [slice(*spec["slice"])])
+    full = np.zeros(L, dtype=bool)
+    full[slice(*spec["slice"])] = True
+    got_full = np.asarray(d.get_mask(st_))
+    if not np.array_equal(got_full, full):
+        raise Mismatch("slice-state/full-mask", {"got": got_full.astype(int).tolist(), "expected": full.astype(int).tolist()})
+    if spec["k"] == "one":
+        views = [spec["view"]]
+    else:
+        vals = [None] + list(range(-L - 1, L + 2))
+        views = [["i", i] for i in range(-L, L)] + [["s", a, b, c] for a in vals for b in vals for c in (None, 1, 2, 3)]
+    ev = nt = 0
+    for v in views:
+        item = gen._item(v)
+        for wrap in (False, True):
+            view = (item,) if wrap else item
+            exp = full[view]
+            got = np.asarray(d.get_mask(st_, view))
+            if got.shape != exp.shape or not np.array_equal(got.astype(bool), exp):
+                raise Mismatch("slice-state/view/%s" % ("int" if v[0] == "i" else "slice"),
+                               {"got": got.astype(int).tolist(), "expected": exp.astype(int).tolist()},
+                               {"k": "one", "L": L, "slice": spec["slice"], "view": v})
+            ev += 1
+            nt += bool(full.any() and not full.all() and np.size(exp) < L)
+    if spec["k"] == "one":
+        rec.nt(nt > 0)
+    else:
+        rec.bulk(ev, nt)
+
+
+@st.composite
+def slice_nd_cases(draw):
+    shape = draw(gen.shapes(2, 3, 6, 2))
+    n = int(np.prod(shape))
+    dspec = {"label": "d", "shape": shape, "coords": None, "comps": [{"name": "a", "kind": "int", "vals": list(range(n))}]}
+    tree = {"t": "slice", "slices": [draw(gen.slice_spec(shape[i]))[1:] for i in range(draw(st.integers(1, len(shape))))]}
+    return {"data": dspec, "view": draw(gen.view_spec(shape, ("tuple", "short", "mixed", "mixed", "single", "fancy", "bool"))), "tree": tree,
+            "order": draw(st.integers(0, 1))}
+
+
+@st.composite
+def pixel_roi_cases(draw):
+    shape = draw(gen.shapes(1, 3, 4, 1))
+    n = int(np.prod(shape))
+    nd = len(shape)
+    dspec = {"label": "d", "shape": shape, "coords": draw(st.sampled_from([None, {"kind": "identity"}])),
+             "comps": [{"name": "a", "kind": "int", "vals": list(range(n))}]}
+    x, y = draw(st.integers(0, nd - 1)), draw(st.integers(0, nd - 1))
+    roi = draw(gen.roi2d_spec(kinds=("rect", "circ", "poly", "xrange", "yrange", "ellipse"), rotated=False))
+    tree = {"t": "roi", "x": ["p", x], "y": ["p", y], "roi": roi}
+    if draw(st.integers(0, 3)) == 0:
+        tree = {"t": draw(st.sampled_from(["and", "or", "xor"])), "a": tree, "b": {"t": "ineq", "att": ["c", 0], "op": "gt", "val": float(n // 2)}}
+    return {"data": dspec, "view": draw(gen.view_spec(shape, VIEW_KINDS)), "tree": tree, "order": draw(st.integers(0, 1))}
+
+
 # --------------------------------------------------------------------------- IndexedData
 
 def fn_indexed(spec, rec):
@@ -266,9 +341,6 @@ def fn_indexed(spec, rec):
 
 # --------------------------------------------------------------------------- generators
 
-VIEW_KINDS = ("none", "ellipsis", "single", "tuple", "short", "mixed", "fancy", "bool")
-
-
 @st.composite
 def attr_cases(draw):
     dspec = draw(gen.data_spec(max_dims=3, max_side=4, max_comps=3))
@@ -309,10 +381,13 @@ def indexed_cases(draw):
 
 
 def checks(tier):
-    n = {"quick": (3000, 3000, 400, 500), "thorough": (240000, 240000, 5000, 30000)}.get(tier, (10, 10, 10, 10))
+    n = {"quick": (3000, 3000, 400, 500, 1200), "thorough": (240000, 240000, 5000, 30000, 80000)}.get(tier, (10, 10, 10, 10, 10))
     return [
         Check("attr_view", fn_attr, strategy=attr_cases(), examples=n[0]),
         Check("mask_view", fn_mask, strategy=mask_cases(), examples=n[1]),
+        Check("slice_state_1d_exhaustive", fn_slice_enum, enum=slice_blocks, count_distinct=False),
+        Check("slice_state_nd", fn_mask, strategy=slice_nd_cases(), examples=n[4]),
+        Check("pixel_roi_views", fn_mask, strategy=pixel_roi_cases(), examples=n[4]),
         Check("scalar_views_unasserted", fn_scalar_views, strategy=scalar_cases(), examples=n[2]),
         Check("indexed_data", fn_indexed, strategy=indexed_cases(), examples=n[3]),
     ]
